@@ -25,6 +25,8 @@ Trees(d) == IF d = 0 THEN Leaves
                  Leaves \cup {[k |-> "W", w |-> w, t |-> t] : w \in Wrappers, t \in sub}
                         \cup {[k |-> "S", a |-> l, b |-> t] : l \in Leaves, t \in sub}
                         \cup {[k |-> "S", a |-> t, b |-> l] : l \in Leaves, t \in sub}
+                        \* a return statement in front: what follows it in the block is still part of the program
+                        \cup {[k |-> "S", a |-> [k |-> "L", x |-> "r"], b |-> t] : t \in sub}
 
 \* ---- rendering a tree as a program (NslSem's program format)
 TyInt == [k |-> "int"]
@@ -44,7 +46,8 @@ Less2(n) == Bop("<", V(n), Lit(2))
 
 RECURSIVE Stmts(_, _)
 Stmts(tr, id) ==
-  CASE tr.k = "L" -> (CASE tr.x = "p" -> <<Plain(id)>> [] tr.x = "b" -> <<[k |-> "break"]>> [] tr.x = "c" -> <<[k |-> "continue"]>>)
+  CASE tr.k = "L" -> (CASE tr.x = "p" -> <<Plain(id)>> [] tr.x = "b" -> <<[k |-> "break"]>> [] tr.x = "c" -> <<[k |-> "continue"]>>
+                         [] tr.x = "r" -> <<[k |-> "ret", e |-> V("t")]>>)
     [] tr.k = "S" -> Stmts(tr.a, id * 8 + 1) \o Stmts(tr.b, id * 8 + 2)
     [] tr.k = "W" ->
          LET inner == Stmts(tr.t, id * 8 + 3)
